@@ -224,10 +224,16 @@ def expand(prop, profile_name, base_seed, index, extra, run):
         yield p
 
 
+THOROUGH_FACTOR = 10
+
+
 def jobs_for(prop, tier):
     jobs = []
     for name, quick, thorough in CHECKS[prop]['profiles']:
         n = quick if tier == 'quick' else thorough
+        if tier == 'thorough' and isinstance(n, int):
+            # machine budget: all 18 thorough checks together have to fit into a few hours of this 16-core sandbox
+            n = min(n, quick * THOROUGH_FACTOR)
         size = PROFILES[name][1].get('grid_size', grid_total)
         if n == 'grid':
             jobs.extend((name, i, None) for i in range(size()))  # the whole window, every point once
